@@ -405,7 +405,7 @@ func TestVerifC11(t *testing.T) {
 	}
 	nd := 300
 	if vhThorough() {
-		nd = 6000
+		nd = 3000
 	}
 	for i := 0; i < nd; i++ {
 		cs := uint32(1 + r.Intn(9))
@@ -418,7 +418,7 @@ func TestVerifC11(t *testing.T) {
 	// (b) end to end with content
 	reps := 1
 	if vhThorough() {
-		reps = 6
+		reps = 3
 	}
 	for _, msize := range []uint32{154, 155, 156, 157, 160, 170, 665, 666, 667, 1177} {
 		cs := vh11Payload(msize)
@@ -481,7 +481,7 @@ func TestVerifC11(t *testing.T) {
 	// (c) end to end, larger msize up to 1 MiB and more: length level + content checked here
 	bigs := []uint32{2201, 4096, 8192, 65536, 1 << 20}
 	if vhThorough() {
-		bigs = append(bigs, 4097, 1<<20+1, 4<<20)
+		bigs = append(bigs, 4097, 1<<20+1) // (4 MiB buffers are too costly for the unary length-level evaluation)
 	}
 	for _, msize := range bigs {
 		cs := vh11Payload(msize)
